@@ -11,7 +11,7 @@ import (
 // vanished since), the slash callback returns nil without panic and queues a rebalance.
 func H_C08_total() {
 	id := "C08.total"
-	nd.UFWindow(24) // the slash changes share totals; relating values before/after needs monotonicity
+	nd.UFWindow(24)                 // the slash changes share totals; relating values before/after needs monotonicity
 	dstState := nd.Choice("dst", 2) // destination position of the pending redelegation: 0 present (any size), 1 absent
 	pk := nd.Choice("pending", 3)
 	ps := []Pos{{0, 0, 0}, {1, 1, 0}}
